@@ -5,7 +5,7 @@ from __future__ import annotations
 import concurrent.futures as cf
 
 from .. import assign_replay, pool, tlc
-from ..checklib import Check, MachineryError
+from ..checklib import Check, MachineryError, overlap_kind
 
 SHAPES = ["seq", "nest", "dict", "call"]
 # (TStride of the model-checking run, TStride / Stride / keep_every of the emission) per tier
@@ -61,7 +61,7 @@ def sig_of(m, case):
     det = m["detail"]
     err = det[0] if isinstance(det, list) and det else None
     return {"clause": m["clause"], "A": m["A"], "term_kind": case["tm"]["t"], "value_kind": case["v"]["t"],
-            "error": err, "overlap": bool(isinstance(det, list) and len(det) > 1 and "Replacement(" in str(det[1])),
+            "error": err, "overlap": overlap_kind(det), "nested": assign_replay.RA.has_tag(case["tm"], {"sn"}),
             "positional": bool(d.get("positional")) if "positional" in d else None,
             "exp": d.get("exp") if m["clause"] == "cats" else None, "got": d.get("got") if m["clause"] == "cats" else None}
 
